@@ -543,9 +543,15 @@ class SymBytes:
         return len(self.segs) > 0
 
     def __bytes__(self):
-        if all(s[0] == "c" for s in self.segs):
-            return b"".join(s[1] for s in self.segs)
-        raise Unsupported("bytes() of symbolic content")
+        out = []
+        for s in self.segs:
+            if s[0] == "c":
+                out.append(s[1])
+            elif s[0] == "z" and z3.is_int_value(S(s[1])):
+                out.append(b"\0" * S(s[1]).as_long())
+            else:
+                raise Unsupported("bytes() of symbolic content")
+        return b"".join(out)
 
     def __getitem__(self, sl):
         if not isinstance(sl, slice):
